@@ -50,6 +50,12 @@ _g_sw, _h_sw = np.random.default_rng(0).normal(size=(4, 4)), np.random.default_r
 Y_SW = _g_sw[I_SW[:, 0], I_SW[:, 2]] * _h_sw[I_SW[:, 1], I_SW[:, 3]]
 
 
+def tn1(seed=7):
+    rng = np.random.default_rng(seed)
+    n, r = [3, 1, 4, 1], [1, 2, 2, 2, 1]
+    return [rng.normal(size=(r[k], n[k], r[k + 1])) for k in range(4)]
+
+
 def _f_cross(I):
     return teneva.get_many(tt(), I)
 
@@ -261,6 +267,28 @@ CALLS = {
     'truncate_stab': lambda: (teneva.truncate, (tt(), 1e-2), dict(use_stab=True)),
     'truncate_noorth': lambda: (teneva.truncate, (teneva.orthogonalize(tt(), 2), 1e-2), dict(orth=False)),
     'vector_delta': lambda: (teneva.vector_delta, (3, -2, 2.), {}),
+    # tensors with modes of size one (shape [3, 1, 4, 1], ranks 2): fast paths for such modes must still return fresh cores
+    'func_int_sin_n1': lambda: (teneva.func_int, (tn1(),), dict(kind='sin')),
+    'func_gets_sin_n1': lambda: (teneva.func_gets, (tn1(),), dict(kind='sin')),
+    'func_get_n1': lambda: (teneva.func_get, (np.random.default_rng(1).uniform(-1, 1, size=(5, 4)), tn1(), -1, 1), {}),
+    'func_sum_n1': lambda: (teneva.func_sum, (tn1(), -1, 1), {}),
+    'truncate_n1': lambda: (teneva.truncate, (tn1(), 1e-2), {}),
+    'truncate_n1_stab': lambda: (teneva.truncate, (tn1(), 1e-2), dict(use_stab=True)),
+    'orthogonalize_n1': lambda: (teneva.orthogonalize, (tn1(), 2), {}),
+    'orthogonalize_n1_stab': lambda: (teneva.orthogonalize, (tn1(), 1), dict(use_stab=True)),
+    'orthogonalize_left_n1': lambda: (teneva.orthogonalize_left, (tn1(), 1), {}),
+    'orthogonalize_right_n1': lambda: (teneva.orthogonalize_right, (tn1(), 1), {}),
+    'add_n1': lambda: (teneva.add, (tn1(), tn1(8)), {}),
+    'mul_n1': lambda: (teneva.mul, (tn1(), tn1(8)), {}),
+    'sub_n1': lambda: (teneva.sub, (tn1(), tn1(8)), {}),
+    'outer_n1': lambda: (teneva.outer, (tn1(), tn1(8)), {}),
+    'copy_n1': lambda: (teneva.copy, (tn1(),), {}),
+    'interface_n1': lambda: (teneva.interface, (tn1(),), {}),
+    'svd_n1': lambda: (teneva.svd, (np.random.default_rng(3).normal(size=(3, 1, 4, 1)), 1e-10), {}),
+    'optima_tt_n1': lambda: (teneva.optima_tt, (tn1(),), {}),
+    'sample_n1': lambda: (teneva.sample, (tn1(), 3), dict(seed=4)),
+    'get_and_grad_n1': lambda: (teneva.get_and_grad, (tn1(), [1, 0, 2, 0]), {}),
+    'full_n1': lambda: (teneva.full, (tn1(),), {}),
 }
 
 # documented pass-through helpers (by call variant: core_stab only below its threshold)
